@@ -25,6 +25,13 @@ theorem gen_constants :
     Gen.Rcpt.nameblTypeEarly = false ∧ Gen.Rcpt.dnsblWhiteLogsBlackIndex = false ∧
     Gen.Rcpt.rcptCbs.length = 16 := by decide
 
+/-- **The documented place of `whitelistauth`** (filterconf(5): "if the user is authenticated … the
+mail is accepted and no other filters will be checked"): the filter that implements it (`cb_boolean`)
+is the first entry of `rcpt_cbs[]`, so by `first_hard_decision_wins` its whitelisting is the
+decision whatever the other fifteen filters would say.  Re-proved against the table extracted from
+qsmtpd/filters/rcpt_filters.c on every run. -/
+theorem whitelistauth_checked_first : Gen.Rcpt.rcptCbs.head? = some .boolean := rfl
+
 /-! ### the policy -/
 
 /-- **rcpt_outcome_spec.**  For *every* sequence of filter answers (what each filter of the chain
